@@ -689,8 +689,8 @@ class AplItems(Kind):
                 if prefix > 128:
                     cur.soft.append("APL IPv6 prefix above 128")
                 a = a + bytes(max(0, 16 - len(a)))
-            else:
-                cur.soft.append("APL address family not defined by RFC 3123")
+            # other families: RFC 3123's wire format is family-agnostic (FAMILY, PREFIX, N, AFDLENGTH,
+            # opaque AFDPART), and the library keeps such items as hex text - well-formed
             out.append((fam, neg, a, prefix))
         return tuple(out)
 
@@ -727,7 +727,7 @@ class AplItems(Kind):
             return False
 
     def issues(self, v):
-        return ["APL address family not defined by RFC 3123"] if any(i[0] not in (1, 2) for i in v) else []
+        return []
 
     def domain(self, tier):
         i4 = (1, False, bytes([192, 168, 32, 0]), 21)
@@ -735,7 +735,9 @@ class AplItems(Kind):
         return [(i4,), (), (i4, (1, True, bytes([192, 168, 38, 0]), 28)), (i6,),
                 ((1, False, bytes(4), 0),), ((1, True, b"\xff" * 4, 32),), ((2, True, b"\xff" * 16, 128),),
                 ((2, False, bytes(16), 0),), ((1, False, bytes([0, 0, 0, 1]), 32),), ((1, False, bytes([10, 0, 0, 0]), 8),),
-                (i4, i6, (1, True, bytes([224, 0, 0, 0]), 4))]
+                (i4, i6, (1, True, bytes([224, 0, 0, 0]), 4)),
+                ((3, False, bytes([1, 2, 3]), 24),), ((0, True, b"", 0), i4), ((65535, False, b"\xff" * 5, 255),),
+                ((3, True, b"\x01" * 64, 8),), ((4, False, b"\x7f" * 127, 0),)]
 
 
 # ---- SVCB (RFC 9460)
